@@ -75,6 +75,11 @@ T = [
     ("indicator-control-indicator", 1, 12, 4, 0, [IN("\U0001F1E9\r\n\U0001F1EA" + "a" + "‍" + E + "[1C" + "b")], False),
     ("stale-uniseg-state", 1, 12, 3, 1, [IN("\U0001F468‍"), IN(E + "[1;1H"), IN("ab")], False),
     ("alt-mark-overwrite", 0, 10, 2, 0, [IN(E + "[?1049h" + "e\u0301x" + E + "[2G" + "Y" + E + "[6n" + E + "[1;1H" + "\u2764\ufe0fab" + E + "[3G" + E + "[X")], True),
+    # fix 8955491: U+2E3A is three bytes and three cells wide (the byte-per-cell shortcuts patched its bytes);
+    # characters of 3 and 4 cells kept, cut by writes, erases, deletes and resizes
+    ("three-cell-char-overwrite", 0, 10, 2, 0, [IN("\u2e3a" + E + "[1;2Hx" + E + "[1;1H" + "\u2e3a\u2e3a\u2e3a" + E + "[1;3Hx" + E + "[1;1H" + E + "[4P")], True),
+    ("four-cell-char-keep", 0, 10, 1, 1, [IN(E + "[1;10H" + "\ud55c"), IN(E + "[1;11H" + "\U0001f389\u2e3b"), IN(E + "[1;9Hc")], True),
+    ("wide3-cut-by-erase-and-resize", 0, 9, 2, 1, [IN("ab\u2e3acd\u2e3b"), IN(E + "[1;4H" + E + "[2X"), IN(E + "[1;8H" + E + "[1K"), RS(8, 2), RS(12, 2), IN(E + "[1;1H" + E + "[3P")], True),
     ("del-between-indicators", 1, 10, 3, 0, [IN("xy\U0001F1FA\x7f\x7f\U0001F1F8" + "a\u200d\x7f" + "b")], False),
     ("mode-combos", 0, 6, 3, 0, [IN(E + "[3;3H" + E + "[?1049;7h" + "abcdefgh" + E + "[6n" + E + "[?1049;1049l" + E + "[6n" + E + "[?25;1049;1049h" + "x" + E + "[?7;1049l" + "ijklmnop")], True),
     ("osc-4096", 0, 10, 3, 0, [IN("a" + E + "]0;" + "t" * 4096 + E + "\\" + "b" + E + "]2;" + "u" * 4097 + "\x07" + "c" + E + "P" + "q" * 4095 + E + "\\" + "d")], False),
